@@ -39,6 +39,16 @@ LEGIT = b'legit=1\n'
 TIMEOUT = {'quick': 1500, 'thorough': 10800}
 
 
+# directories whose names contain characters that mean something to pattern languages, each with neighbours such a pattern would match;
+# and a `.lexaloffle/pico-8/carts*` family that is not in the user's home directory
+SPECIAL_DIRS = {'game.v2': ('game-v2', 'gamexv2', 'game.v22'), 'my+proj': ('myyproj', 'myproj', 'my+proj2'), 'a(b)': ('ab', 'a(b)c'),
+                'data[1]': ('data1', 'data[1]0'), 'q?x': ('qx', 'x'), 'star*': ('sta', 'starr', 'star*s'), 'c$': ('c', 'c$d'), '^d': ('d',),
+                'e|f': ('e', 'f'), 'g{2}': ('gg',), '%41': ('A',), 'i j': ('i', 'ij')}
+FOREIGN = 'elsewhere/.lexaloffle/pico-8/'
+NAMED_DIRS = tuple(sorted(set(SPECIAL_DIRS) | {n for v in SPECIAL_DIRS.values() for n in v})) + (
+    FOREIGN + 'carts-old', FOREIGN + 'carts/game', FOREIGN + 'carts.bak', 'home/.lexaloffle/pico-8/carts-old')
+
+
 def strings(nmax):
     out = []
     for n in range(1, nmax + 1):
@@ -61,6 +71,7 @@ def plan(tier, seed):
         specs.append({'kind': 'enumerate', 'slice': [i, nsh], 'N': N, 'total': total})
     specs.append({'kind': 'absolute'})
     specs.append({'kind': 'links'})
+    specs.append({'kind': 'names'})
     specs.append({'kind': 'sequences', 'count': 2 if tier == 'quick' else 10})
     return specs
 
@@ -71,7 +82,7 @@ def make_universe():
     for d in ('root/sub', 'root/lib', 'root/x', 'rootbar/sub', 'rootbar/lib', 'outside/sub', 'outside/lib', 'abs/lib', 'ROOT/sub', 'Root',
               'home/.lexaloffle/pico-8/Carts/game', 'home/.lexaloffle/pico-8/carts/Game', 'root/SUB',
               'home/.lexaloffle/pico-8/carts/game', 'home/.lexaloffle/pico-8/carts/other', 'home/.lexaloffle/pico-8/carts2/game',
-              'home/.lexaloffle/pico-8/sub', 'sub', 'lib', 'x', 'pico-8/carts/game', 'pico-8/carts/other'):
+              'home/.lexaloffle/pico-8/sub', 'sub', 'lib', 'x', 'pico-8/carts/game', 'pico-8/carts/other') + NAMED_DIRS:
         os.makedirs(os.path.join(U, d), exist_ok=True)
     # legit files inside roots, canaries everywhere else
     names = ['x', 'x.lua', 'sub.lua', 'lib.lua', 'root.lua', 'rootbar.lua', 'x.p8', 'init.lua']
@@ -130,6 +141,9 @@ def run_include(ctx, U, s, ext, cfg, hostile):
     elif cfg == 'cwdcarts':
         # a folder that is called pico-8/carts relative to the working directory is not the PICO-8 carts folder
         cartdir = os.path.join(U, 'pico-8', 'carts', 'game')
+        roots = [cartdir]
+    elif cfg.startswith('dir:'):
+        cartdir = os.path.join(U, cfg[4:])
         roots = [cartdir]
     else:  # a folder whose name merely extends the carts folder's name: the cart's own directory is the root
         cartdir = os.path.join(home, '.lexaloffle/pico-8/carts2/game')
@@ -466,6 +480,26 @@ def run_shard(spec, ctx):
                 nested_require(ctx, U, hostile)
             ctx.feature('links_done')
             return
+        if spec['kind'] == 'names':
+            for hostile in (False, True):
+                for d, sibs in sorted(SPECIAL_DIRS.items()):
+                    cfg = 'dir:' + d
+                    run_include(ctx, U, 'x', '.lua', cfg, hostile)
+                    for sib in sibs:
+                        for s_ in ('../%s/x' % sib, '../%s/sub' % sib, os.path.join(U, sib, 'x'), './../%s/x' % sib):
+                            run_include(ctx, U, s_, '.lua', cfg, hostile)
+                        run_include(ctx, U, '../%s/x' % sib, '.p8', cfg, hostile)
+                    ctx.feature('cart_directories_with_special_characters')
+                for cfg, strs in (('dir:' + FOREIGN + 'carts-old', ('../carts/x', '../carts/game/x', '../carts.bak/x', 'x')),
+                                  ('dir:' + FOREIGN + 'carts.bak', ('../carts/x', '../carts-old/x', 'x')),
+                                  ('dir:home/.lexaloffle/pico-8/carts-old', ('../carts/x', '../carts/game/x', '../carts2/game/x', 'x')),
+                                  ('carts2', ('../../carts/x', '../../carts/game/x', '../../carts-old/x'))):
+                    for s_ in strs:
+                        run_include(ctx, U, s_, '.lua', cfg, hostile)
+                        run_include(ctx, U, s_, '.p8', cfg, hostile)
+                    ctx.feature('carts_folder_lookalikes')
+            ctx.feature('names_done')
+            return
         if spec['kind'] == 'absolute':
             for target in ('outside/x', 'outside/sub/x', 'rootbar/x', 'x', 'root/../outside/x', 'root/x'):
                 ap = os.path.join(U, target)
@@ -532,7 +566,7 @@ def gates(m, tier):
     N = 3 if tier == 'quick' else 4
     if f.get('strings_enumerated', 0) != len(strings(N)):
         missed.append('strings enumerated %d of %d' % (f.get('strings_enumerated', 0), len(strings(N))))
-    for k in ('cart_loaded_from_stream_without_name', 'cart_under_cwd_relative_carts_folder', 'strings_with_tilde', 'nested_require_from_subdirectory', 'main_named_bare', 'main_named_relative', 'cart_named_bare', 'cart_named_relative', 'links_done', 'strings_through_directory_links', 'strings_with_backslash_separators', 'strings_with_undecodable_bytes', 'sequences_done', 'failed_load_before_case', 'failed_build_before_case', 'include_cfg:subdir', 'absolute_paths_done', 'hostile', 'real_fs', 'include_cfg:plain', 'include_cfg:carts', 'include_cfg:carts2', 'include_rejected',
+    for k in ('cart_loaded_from_stream_without_name', 'cart_under_cwd_relative_carts_folder', 'strings_with_tilde', 'nested_require_from_subdirectory', 'main_named_bare', 'main_named_relative', 'cart_named_bare', 'cart_named_relative', 'links_done', 'strings_through_directory_links', 'strings_with_backslash_separators', 'strings_with_undecodable_bytes', 'sequences_done', 'failed_load_before_case', 'failed_build_before_case', 'include_cfg:subdir', 'absolute_paths_done', 'names_done', 'cart_directories_with_special_characters', 'carts_folder_lookalikes', 'hostile', 'real_fs', 'include_cfg:plain', 'include_cfg:carts', 'include_cfg:carts2', 'include_rejected',
               'include_loaded', 'require_rejected', 'require_built') + tuple('load_path:' + l for l in LOAD_PATHS):
         if f.get(k, 0) < 1:
             missed.append('%s never seen' % k)
